@@ -70,7 +70,7 @@ from ._state_token import (
     _deserialize_state_bytes,
     _mint_call_token,
     _mint_cursor_token,
-    _open_call_token,
+    _open_call_token_created,
     _open_cursor_token,
     _resolve_state_cls,
     _ResolvedCall,
@@ -304,6 +304,7 @@ def _run_stream_init_sync(
             # serialized or sealed.  Continuations echo the token back and the
             # server resolves it from cache; see ``_state_token`` for why that
             # lookup is safe.
+            call_created = int(time.time())
             call_token, call_id, call_state_bytes = _mint_call_token(
                 result.call_state,
                 result.output_schema,
@@ -311,6 +312,7 @@ def _run_stream_init_sync(
                 app._token_key,
                 auth,
                 stream_id,
+                now=call_created,
             )
             # Warm the cache with the objects we already hold, so this stream's
             # first continuation does not have to open the token it was just
@@ -320,6 +322,7 @@ def _run_stream_init_sync(
                 auth,
                 _ResolvedCall(result.call_state, result.output_schema, result.input_schema, stream_id),
                 time.time(),
+                expires_at=float(call_created + app._token_ttl) if app._token_ttl > 0 else None,
             )
 
             if result.input_schema == _EMPTY_SCHEMA:
@@ -1173,8 +1176,16 @@ def _unpack_and_recover_state(
     now = time.time()
     resolved = app._call_state_cache.get(call_id, auth, now)
     if resolved is None:
-        resolved = _resolve_call_from_token(app, call_token, call_id, state_info, auth)
-        app._call_state_cache.put(call_id, auth, resolved, now)
+        resolved, call_created = _resolve_call_from_token(app, call_token, call_id, state_info, auth)
+        # The entry must not outlive the call token that justifies it: a later
+        # hit would serve what a worker with a cold cache rejects as expired.
+        app._call_state_cache.put(
+            call_id,
+            auth,
+            resolved,
+            now,
+            expires_at=float(call_created + app._token_ttl) if app._token_ttl > 0 else None,
+        )
 
     if resolved.stream_id:
         _current_stream_id.set(resolved.stream_id)
@@ -1214,7 +1225,7 @@ def _resolve_call_from_token(
     expected_call_id: bytes,
     state_info: _StateInfo,
     auth: AuthContext | None,
-) -> _ResolvedCall:
+) -> tuple[_ResolvedCall, int]:
     """Open a client-supplied call token — the cache-miss path.
 
     Args:
@@ -1226,7 +1237,7 @@ def _resolve_call_from_token(
         auth: Authenticated identity for the current request.
 
     Returns:
-        The parsed :class:`_ResolvedCall`.
+        The parsed :class:`_ResolvedCall` and the call token's creation time.
 
     Raises:
         _RpcHttpError: If the token is absent, fails to open, names a
@@ -1247,7 +1258,8 @@ def _resolve_call_from_token(
         input_schema_bytes,
         token_call_id,
         stream_id,
-    ) = _open_call_token(call_token, app._token_key, _compute_call_aad(auth), app._token_ttl)
+        call_created,
+    ) = _open_call_token_created(call_token, app._token_key, _compute_call_aad(auth), app._token_ttl)
     # Constant-time compare: the ids are both server-minted and already
     # authenticated, so this is belt-and-braces against a client pairing two
     # of its own tokens from different streams.
@@ -1289,4 +1301,4 @@ def _resolve_call_from_token(
                 status_code=HTTPStatus.BAD_REQUEST,
             ) from exc
 
-    return _ResolvedCall(call_state, output_schema, input_schema, stream_id)
+    return _ResolvedCall(call_state, output_schema, input_schema, stream_id), call_created
